@@ -295,9 +295,13 @@ func (s *Service) housekeepAttestedMap(_ context.Context,
 ) {
 	// Housekeep attested map.
 	epoch := s.chainTime.SlotToEpoch(duty.Slot())
-	if epoch > 1 {
-		s.attestedMu.Lock()
-		delete(s.attested, epoch-2)
-		s.attestedMu.Unlock()
+	// Epochs can pass without a successful attestation (no duties, or a beacon node outage),
+	// so remove everything older than the previous epoch rather than a single epoch.
+	s.attestedMu.Lock()
+	for attestedEpoch := range s.attested {
+		if attestedEpoch+1 < epoch {
+			delete(s.attested, attestedEpoch)
+		}
 	}
+	s.attestedMu.Unlock()
 }
